@@ -111,6 +111,10 @@ def main():
         prev = json.load(open(d + "/meta.json"))
         meta["first_detected_by"] = prev.get("first_detected_by", prev.get("detected_by", []))
         meta["first_evaluated_at"] = prev.get("first_evaluated_at", prev.get("at"))
+        hist = prev.get("history", [])
+        hist.append({"at": prev.get("at"), "checks_from": prev.get("checks_from", "live /verif"), "repo_commit": prev.get("repo_commit"),
+                     "checks_run": prev.get("checks_run"), "detected_by": prev.get("detected_by"), "error": prev.get("error")})
+        meta["history"] = hist
     except Exception:
         meta["first_detected_by"] = meta.get("detected_by", [])
         meta["first_evaluated_at"] = meta.get("at")
